@@ -61,6 +61,19 @@ func (node *tagFilterNode) Execute(ctx *ExecutionContext, writer TemplateWriter)
 // escapedFilterParam escapes a parameter of the filter tag: text as a whole, a
 // list item by item (a filter like join or first may hand the items out).
 func escapedFilterParam(param *Value) (*Value, *Error) {
+	return escapedFilterParamNested(param, 0)
+}
+
+// Lists in lists are followed this deep (a list may contain itself).
+const maxFilterParamNesting = 100
+
+func escapedFilterParamNested(param *Value, depth int) (*Value, *Error) {
+	if depth > maxFilterParamNesting {
+		return nil, &Error{
+			Sender:    "tag:filter",
+			OrigError: fmt.Errorf("filter parameter is nested deeper than %d lists", maxFilterParamNesting),
+		}
+	}
 	if param == nil || param.safe || param.IsNil() {
 		return param, nil
 	}
@@ -77,7 +90,7 @@ func escapedFilterParam(param *Value) (*Value, *Error) {
 		if inner, ok := item.Interface().(*Value); ok && inner != nil {
 			item = inner // an item of a list written in the template
 		}
-		escaped, err := escapedFilterParam(item)
+		escaped, err := escapedFilterParamNested(item, depth+1)
 		if err != nil {
 			return nil, err
 		}
